@@ -82,7 +82,7 @@ Theorem C09_errors_do_not_stop : forall modf acts args answers f g,
   (forall file k, In (file, Error k) (rlog r) -> rexit r = 1%N /\ In (file, k) (rerrors r)) /\
   (forall e, In e (snd (expand f args)) -> rexit r = 1%N /\ In e (rerrors r)) /\
   (forall file, In (file, ExitOne) (rlog r) -> rexit r = 1%N).
-Proof. intros modf acts args answers f g. apply errors_do_not_stop. left. reflexivity. Qed.
+Proof. exact errors_do_not_stop_repaired. Qed.
 Print Assumptions C09_errors_do_not_stop.
 
 Theorem C09_errors_do_not_stop_partial : forall fx modf acts args answers f g,
